@@ -48,3 +48,18 @@ package diff
 //@   call (*Canonicalizer).CanonicalizeFunction assert [C17.cap] len(fn.Blocks) <= MaxFunctionBlocks
 //@   call computeVirtualControlFlow assert [C17.cap] len(fn.Blocks) <= MaxFunctionBlocks
 //@   ensures [C17.cap] true
+
+// ---- C10: reports do not depend on map iteration order
+//@ func MatchFunctionsByTopology$1
+//@   requires 0 <= i && i < len(*candidates) && 0 <= j && j < len(*candidates)
+//@   ensures result == ((*candidates)[i].sim > (*candidates)[j].sim)
+
+//@ func MatchFunctionsByTopology
+//@   noframe
+//@   protocol-only C10
+//@   deterministic
+
+//@ func sortedResultNames
+//@   noframe
+//@   protocol-only C10
+//@   deterministic
